@@ -6,6 +6,13 @@
    drivers and in the refutation witnesses): the walker theorems hold for every matcher.
    [fixed_P17 = true] models the locality test added to [IgnoreRules::check] by the P17 fix;
    [fixed_P17 = false] is the code before the fix.
+   [fixed_P35 = true] models the repair of P35 in [IgnoreRules::check]: a path that matches a global
+   ignore pattern (Source::Global, e.g. `.xvc` / `.git` of COMMON_IGNORE_PATTERNS) is Ignore before
+   the whitelist patterns are consulted; [fixed_P35 = false] is the code without it (whitelist first).
+   [walk_panics fixed_P36]: the walk reads an ignore file (or a global line) on which [Pattern::new]
+   panics (finding P36, Glob/Pattern.v [pattern_new_panics]); never with [fixed_P36 = true].
+   [check_str] keeps its signature (it is also used by Gitignore/Model.v); the walkers use [check],
+   which is [check_str35] on the rendered path.
    No proofs in this file. *)
 From Coq Require Import List NArith Bool.
 From XV Require Import Glob.Match Glob.Pattern.
@@ -54,9 +61,12 @@ Definition dir_patterns (p : path) (ign : option bytes) : list pattern :=
   | Some content => content_to_patterns (SFile (dir_string p)) content
   end.
 
+Definition is_global (pat : pattern) : bool := match p_src pat with SGlobal => true | SFile _ => false end.
+
 Section Walk.
 Variable gm : bytes -> bytes -> bool.
 Variable fixed_P17 : bool.
+Variable fixed_P35 : bool.
 
 Definition pat_hits (s : bytes) (pat : pattern) : bool :=
   (if fixed_P17 then applies pat s else true) && gm (p_glob pat) s.
@@ -66,7 +76,12 @@ Definition check_str (R : rules) (s : bytes) : verdict :=
   if existsb (pat_hits s) (r_white R) then Whitelist
   else if existsb (pat_hits s) (r_ign R) then Ignore
   else NoMatch.
-Definition check (R : rules) (p : path) : verdict := check_str R (render p).
+(* the repair of P35: the global ignore patterns are consulted first and are final *)
+Definition global_hit (R : rules) (s : bytes) : bool :=
+  existsb (fun pat => is_global pat && gm (p_glob pat) s) (r_ign R).
+Definition check_str35 (R : rules) (s : bytes) : verdict :=
+  if fixed_P35 && global_hit R s then Ignore else check_str R s.
+Definition check (R : rules) (p : path) : verdict := check_str35 R (render p).
 
 (* ---- the reference walk -------------------------------------------------------------------------
    A path's verdict uses exactly the patterns of the ignore files of its proper ancestors plus the
@@ -86,6 +101,29 @@ Fixpoint spec_node (R : rules) (p : path) (t : tree) {struct t} : list path :=
 
 Definition spec_walk (globals : bytes) (ign : option bytes) (ch : list (name * tree)) : list path :=
   spec_node (global_rules globals) [] (Dir ign ch).
+
+(* ---- panics (finding P36) ------------------------------------------------------------------------
+   The walk panics when it reads an ignore file with a rule line on which Pattern::new panics: the
+   files of the directories the reference walk enters, and the lines of the global text. *)
+Definition ign_panics (fixed_P36 : bool) (ign : option bytes) : bool :=
+  match ign with None => false | Some content => content_panics fixed_P36 content end.
+
+Fixpoint panics_node (fixed_P36 : bool) (R : rules) (p : path) (t : tree) {struct t} : bool :=
+  match t with
+  | File => false
+  | Dir ign ch =>
+    ign_panics fixed_P36 ign ||
+    let R' := add_patterns R (dir_patterns p ign) in
+    (fix go (l : list (name * tree)) : bool :=
+       match l with
+       | [] => false
+       | (n, c) :: r =>
+         (if is_ignore (check R' (p ++ [n])) then false else panics_node fixed_P36 R' (p ++ [n]) c) || go r
+       end) ch
+  end.
+
+Definition walk_panics (fixed_P36 : bool) (globals : bytes) (ign : option bytes) (ch : list (name * tree)) : bool :=
+  existsb (pattern_new_panics fixed_P36) (lines globals) || panics_node fixed_P36 (global_rules globals) [] (Dir ign ch).
 
 (* ---- listing one directory with the rules R (the filter_map of both walkers) ------------------ *)
 Fixpoint scan (R : rules) (p : path) (ch : list (name * tree)) : list path * list ditem :=
@@ -212,6 +250,19 @@ Fixpoint wf_tree (t : tree) : bool :=
     (fix go (l : list (name * tree)) : bool :=
        match l with [] => true | (_, c) :: r => wf_tree c && go r end) ch
   end.
+
+(* Known class of P36 (boolean on trees): some ignore file of the tree, wherever it is, has a rule line on
+   which Pattern::new panics; empty when the repair is in *)
+Fixpoint tree_mb_line (fixed_P36 : bool) (t : tree) : bool :=
+  match t with
+  | File => false
+  | Dir ign ch =>
+    ign_panics fixed_P36 ign ||
+    (fix go (l : list (name * tree)) : bool :=
+       match l with [] => false | (_, c) :: r => tree_mb_line fixed_P36 c || go r end) ch
+  end.
+Definition known_P36 (fixed_P36 : bool) (globals : bytes) (t : tree) : bool :=
+  existsb (pattern_new_panics fixed_P36) (lines globals) || tree_mb_line fixed_P36 t.
 
 (* number of directories, for the fuel of [serial_walk] *)
 Fixpoint dir_count (t : tree) : nat :=
